@@ -128,6 +128,19 @@ class C16Saturate(Scenario):
         except Exception as e:
             raise Violation("export_failed", f"after {what} the structure can no longer be exported: "
                                              f"{type(e).__name__}: {e} (elements_added={self.o.elements_added})", sig)
+        if self.kind == "cbf":
+            # the other export channel of the counting Bloom filter must keep working at the limits as well
+            try:
+                hx = self.o.export_hex()
+                g = type(self.o)(hex_string=hx, hash_function=self.env.hf)
+                if list(g.bloom) != cells or g.elements_added != total:
+                    raise Violation("hex_reload_differs", f"after {what}: export_hex -> load gives different cells / total "
+                                                          f"({g.elements_added} vs {total})", sig)
+            except Violation:
+                raise
+            except Exception as e:
+                raise Violation("export_failed", f"after {what} export_hex / hex load fails: {type(e).__name__}: {e} "
+                                                 f"(elements_added={self.o.elements_added})", sig)
         if cells != self.cells:
             bad = [(i, self.cells[i], cells[i]) for i in range(len(cells)) if cells[i] != self.cells[i]][:4]
             raise Violation("cell_wrong", f"after {what}: (cell, expected, found) {bad}", sig)
